@@ -585,6 +585,10 @@ class KMeansL1L2(KMeans):
                 % (_num_samples(X), self.n_clusters)
             )
 
+        # an earlier fit of the same instance (with norm='L2' for example)
+        # may have recorded another number of features
+        self.n_features_in_ = X.shape[1]
+
         tol = _tolerance(self.norm, X, self.tol)
 
         # Validate init array
